@@ -43,7 +43,20 @@ RULE = ('case = one value-spec-less pg.List or pg.Dict (0-6 initial members, str
         'nested locations are read by path (sym_get with KeyPath / str, KeyPath.query, '
         'chained []), and the step after a write of a member container is with 35% (else '
         '8%) a rebind with one or several paths of depth >= 2 drawn from the reference, '
-        'through the member just written, issued on the root or an ancestor. Non-trivial = at least 5 steps '
+        'through the member just written, issued on the root or an ancestor. LEAVES: half of the '
+        'cases JSON primitives only; the others add (10-35% of the leaves) the SAME objects on '
+        'both sides of one hostile-equality family (== true for everything / a truthy non-bool; '
+        'never equal, NaN, a falsy non-bool; == raises or has no truth value; equal to itself '
+        'only) compared by IDENTITY with the reference, and / or instances of subclasses of the '
+        'JSON primitives (IntEnum, IntFlag, str-valued Enum, user int / str / float subclasses) '
+        'whose JSON value and JSON TEXT are compared leaf by leaf with json.dumps of the '
+        'reference (1 is not 1.0, "a" is not an opaque object). KEYS: 30% of the cases also draw '
+        'one class of unusual keys (bool; IntEnum / user int subclass; the empty str and strs '
+        'with unbalanced brackets). Results that the reference takes from its members '
+        '(setdefault, pop, popitem; get / values / items / iteration) must be the stored member '
+        'itself; remove() is aimed at special leaves. A disagreement is attributed to a class '
+        'of special leaf / key only by the counterfactual run with ordinary stand-ins. '
+        'Non-trivial = at least 5 steps '
         'changed the container; distinct by (operation sequence, final contents).')
 REQUIRED_COUNTERS = ['steps', 'read_checks', 'outcome_both_raise', 'outcome_both_ok',
                      'steps_notify_off', 'multi_member_rebinds', 'multi_member_rebinds_notify_off',
@@ -52,12 +65,21 @@ REQUIRED_COUNTERS = ['steps', 'read_checks', 'outcome_both_raise', 'outcome_both
                      'through_rebinds_into_just_written_member',
                      'steps_dict-subclass-operand', 'steps_list-subclass-operand',
                      'steps_iterable-argument', 'steps_mapping-argument',
-                     'steps_pairs-argument', 'steps_dict-subclass-argument']
+                     'steps_pairs-argument', 'steps_dict-subclass-argument',
+                     'cases_hostile_eq_leaves', 'cases_subclass_leaves', 'cases_unusual_keys',
+                     'read_rounds_hostile_leaf', 'json_text_checks', 'result_identity_checks']
 ASSUMPTIONS = [
     'CPython list/dict semantics are the reference',
     'documented extensions are modelled: MISSING_VALUE deletes, rebind past the end appends, Insertion inserts, plain containers become symbolic',
     'a batch rebind never has two targets past the end of one list, nor a target that is a prefix of another (unspecified order)',
-    'NaN is not used as a value (identity vs equality is not part of the claim)',
+    'a leaf with a hostile == (incl. NaN) is the same object on both sides and compared by identity; '
+    'for containers holding one, == with the plain container and the JSON read-outs are not compared '
+    '(json does not accept it), and a search by value (in, count, index, remove) is not issued when it '
+    'would be decided by how a member CONTAINER answers == about a leaf that claims to equal '
+    'everything or raises',
+    'which of several equal int-like objects (1, True, an IntEnum member) a dict keeps as the key, and '
+    'whether a subclass instance read back from the JSON value form keeps its class, are open; the '
+    'spelling of int keys in the JSON text is the library\'s (members are compared in order)',
     'several writes of one batch into a list other than the rebind receiver contain no Insertion and no index past the end (positions relative to the call-time list only then)',
     'change notification (scope flag, skip_notification, notify_parents) is not part of container semantics: the same reference applies',
     'only instances of dict / list subclasses count as plain containers that become symbolic '
